@@ -101,6 +101,13 @@ class RefSMChart(RefMap):
         super().__init__("smchart", [[k, v] for k, v in zip(SM_FIELDS, fields)])
         self.extra = list(extra) if extra else None
 
+    @classmethod
+    def from_items(cls, items, extra=None):
+        c = cls([])
+        c.items = [list(i) for i in items]
+        c.extra = list(extra) if extra else None
+        return c
+
     def plain(self):
         return {"t": "smchart", "items": [list(i) for i in self.items], "extra": self.extra or None}
 
@@ -150,7 +157,7 @@ class RefSimfile(RefMap):
 
 def chart_from_plain(p):
     if p["t"] == "smchart":
-        return RefSMChart([v for _, v in p["items"]], p.get("extra"))
+        return RefSMChart.from_items(p["items"], p.get("extra"))
     return RefSSCChart(p["items"])
 
 
